@@ -48,6 +48,14 @@ i = next(j for j, e in enumerate(a) if e["ev"] == "Sign"); ba = copy.deepcopy(a)
 case("TraceAPI", "a second RNG request inserted into a Sign log", 0, api(ba, "a_c"))
 ba = [e for e in a if e["ev"] != "Derive"]
 case("TraceAPI", "the Derive line (hook) removed: later uses of the handle", 0, api(ba, "a_d"))
+i = next((j for j, e in enumerate(a) if e["ev"] == "SignInternal" and any(x["ev"] == "Sign" and x.get("mp") == e["mp"] and x.get("draw") == e["draw"] for x in a)), None)
+if i is not None:
+    ba = copy.deepcopy(a); ba[i]["sig"] = "x00"
+    case("TraceAPI", "Sign_internal(FormatMsg(..), rnd) made to differ from Sign(.., rnd)", 0, api(ba, "a_e"))
+i = next(j for j, e in enumerate(a) if e["ev"] == "VerifyInternal" and e["res"]); ba = copy.deepcopy(a); ba[i]["res"] = False
+case("TraceAPI", "internal verdict on an externally issued signature flipped", 0, api(ba, "a_f"))
+i = next(j for j, e in enumerate(a) if e["ev"] == "Verify" and e["res"]); ba = copy.deepcopy(a); ba[i]["mp"] = "x00"
+case("TraceAPI", "formatted message of a Verify replaced (not the function of (mode, ctx, M))", 0, api(ba, "a_g"))
 # TraceCodec
 chk = vlib.build_harness("checked")
 vlib.drive(chk, "codec", sets=44, out=W)
